@@ -50,6 +50,12 @@ type Job struct {
 	Operations [][2]string `json:"operations"` // (constant name, value)
 	Out        string      `json:"out"`
 	Replay     *Cell       `json:"replay,omitempty"`
+	// ReplayUntil: re-execute the cells of one shard in order up to (and including) index Idx and
+	// emit only the last one: state a defect keeps at process level makes a run depend on the
+	// cells executed before it in the same process
+	ReplayUntil *struct {
+		Idx int `json:"idx"`
+	} `json:"replay_until,omitempty"`
 }
 
 // Cell is one simulated run.
@@ -82,6 +88,9 @@ type Result struct {
 	OpenAfterCompile bool           `json:"open_after_compile,omitempty"`
 	Harness          string         `json:"harness,omitempty"`
 	Trace            []string       `json:"trace,omitempty"`
+	Idx              int            `json:"idx"`
+	Shard            int            `json:"shard"`
+	NShard           int            `json:"nshard"`
 }
 
 type MS struct {
@@ -174,7 +183,16 @@ func TestBubble(t *testing.T) {
 						if seed%2 == 1 {
 							mcap = 8
 						}
-						emit(runCell(t, &job, Cell{Entry: entry, Failure: fl, Cap: cp, Consumer: cons, MCap: mcap, Seed: seed}))
+						r := runCell(t, &job, Cell{Entry: entry, Failure: fl, Cap: cp, Consumer: cons, MCap: mcap, Seed: seed})
+						r.Idx, r.Shard, r.NShard = idx, job.Shard, job.NShard
+						if job.ReplayUntil != nil {
+							if idx == job.ReplayUntil.Idx {
+								emit(r)
+								return
+							}
+							continue
+						}
+						emit(r)
 					}
 				}
 			}
@@ -224,7 +242,25 @@ func bubble(job *Job, cell Cell, res *Result) {
 		}
 	}
 	t0 := time.Now()
-	ch := make(chan events.Event, cell.Cap)
+	// "Again:<entry>" / "AgainAfterFailedCompile:<entry>": an earlier call went through the SAME channel
+	// variable (a long-lived field of the caller that gets a fresh channel per run); the run that is
+	// observed is the second one
+	entry := cell.Entry
+	ch := make(chan events.Event, 64)
+	if strings.HasPrefix(entry, "Again:") || strings.HasPrefix(entry, "AgainAfterFailedCompile:") {
+		s.off = true
+		func() {
+			defer func() { recover() }()
+			if strings.HasPrefix(entry, "Again:") {
+				pkg.Validate(job.Profile, job.Data, false, &ch)
+			} else {
+				pkg.CompileProfile("profile: [unclosed\n", false, &ch)
+			}
+		}()
+		s.off = false
+		entry = entry[strings.Index(entry, ":")+1:]
+	}
+	ch = make(chan events.Event, cell.Cap)
 	var mu sync.Mutex
 	done := map[string]bool{}
 	finish := func(name string) { mu.Lock(); done[name] = true; mu.Unlock() }
@@ -346,7 +382,7 @@ func bubble(job *Job, cell Cell, res *Result) {
 	}
 	go func() {
 		defer finish("validator")
-		switch cell.Entry {
+		switch entry {
 		case "Validate":
 			call(func() error { _, err := pkg.Validate(profile, data, false, &ch); return err })
 		case "ValidateWithConfiguration":
@@ -370,7 +406,7 @@ func bubble(job *Job, cell Cell, res *Result) {
 			mu.Lock()
 			res.OpenAfterCompile = !res.Closed
 			mu.Unlock()
-			if cell.Entry == "CompileProfile+ValidateCompiled" {
+			if entry == "CompileProfile+ValidateCompiled" {
 				call(func() error { _, err := pkg.ValidateCompiled(h, data, false, &ch); return err })
 			} else {
 				call(func() error {
